@@ -434,6 +434,8 @@ def build_dataset(recipe: dict, path: pathlib.Path):
         t = xr.DataArray(pd.date_range('2000-01-01', periods=n).values, dims=['time'])
         t.encoding['units'] = TIME_UNITS
         ds = ds.assign_coords({name: t})
+    if recipe.get('pack'):
+        ds = G.pack_coordinates(ds, skip=b.vars)
     ds.to_netcdf(path)
     return b
 
@@ -943,7 +945,7 @@ def dataset_recipe(rng, conv: str, tier: str, for_clip: bool) -> dict:
         r = G.attach_vars(rng, r0, n_vars=rng.choice([2, 3]), max_extra=2)
         if any(v.get('kind') == 'face' for v in r['vars']):     # something to extract / clip on the cells
             break
-    return {'ds': r, 'timecoord': rng.random() < 0.6}
+    return {'ds': r, 'timecoord': rng.random() < 0.6, 'pack': rng.random() < 0.5}
 
 
 def points_table(rng, b, n_hit: int, n_miss: int, cols) -> dict:
